@@ -62,28 +62,36 @@ def run(ctx):
                 one_family(ctx, n, w0, z * side * dx * dx / lam, dx, lam, meths)
         else:
             one_family(ctx, n, w0, z, dx, lam, METHODS)
+    # the documented per-axis sample counts of the impulse-response kernel (aperture samples along x and y, pixel samples along x and y), unequal between
+    # the axes, on square and non-square grids: the same beam
+    for smp in ((4, 2, 1, 1), (2, 2, 1, 3), (1, 3, 2, 2), (3, 3, 1, 1), (1, 1, 1, 1)):
+        zc64 = 64 * dx * dx / lam
+        one_family(ctx, 64, 5.0, zc64, dx, lam, ('ir',), samples=smp)
+        one_family(ctx, (64, 96), 5.0, 96 * dx * dx / lam, dx, lam, ('ir',), samples=smp)
     lens_family(ctx, dx, lam)
     stack_family(ctx, dx, lam)
     W.storage_independence(ctx, 'C04')
     W.argument_types(ctx, 'C04')
 
 
-def one_family(ctx, n, w0, z, dx, lam, methods):
+def one_family(ctx, n, w0, z, dx, lam, methods, samples=(2, 2, 2, 2)):
     if True:
         u0 = oracle(ctx, n, dx, w0, lam, 0.0)
         ref = oracle(ctx, n, dx, w0, lam, z)
         eref = np.sum(np.abs(ref) ** 2)
         for api in ('torch', 'numpy'):
             for meth in methods:
-                rec = {'api': api, 'method': meth, 'n': n, 'w0': w0, 'z': z, 'dx': dx, 'lam': lam}
-                ctx.case((api, meth, n, w0, round(z, 6)), True, rec if len(ctx.samples) < 4 else None)
+                rec = {'api': api, 'method': meth, 'n': n, 'w0': w0, 'z': z, 'dx': dx, 'lam': lam, 'samples': list(samples)}
+                if tuple(samples) != (2, 2, 2, 2) and (api != 'torch' or meth != 'ir'):
+                    continue          # the sample counts are an argument of the torch impulse-response method only
+                ctx.case((api, meth, n, w0, round(z, 6), tuple(samples)), True, rec if len(ctx.samples) < 4 else None)
                 ctx.count('%s/%s/%s' % (api, meth, 'pos' if z > 0 else 'neg'))
                 try:
                     if (isinstance(n, int) and w0 == 6.0) or (isinstance(n, tuple) and w0 == 4.0):
                         # the same setup in a session that computed the other imaging models first (every other propagation type, same arguments)
                         ctx.count('after_the_other_models_of_the_same_setup/%s' % api, W.other_models_first(api, meth, u0, dx, lam, z))
                         rec['after_other_models'] = True
-                    out = W.impl(api, meth, u0, dx, lam, z, samples=(2, 2, 2, 2))
+                    out = W.impl(api, meth, u0, dx, lam, z, samples=tuple(samples))
                 except Exception as e:
                     ctx.violation('%s %s raised %r' % (api, meth, e), rec, {'api': api, 'method': meth, 'what': 'raises'})
                     continue
@@ -177,7 +185,7 @@ def replay(ctx, rep):
     ref = oracle(ctx, r['n'], r['dx'], r['w0'], r['lam'], r['z'])
     if r.get('after_other_models'):
         W.other_models_first(r['api'], r['method'], u0, r['dx'], r['lam'], r['z'])
-    out = W.impl(r['api'], r['method'], u0, r['dx'], r['lam'], r['z'], samples=(2, 2, 2, 2))
+    out = W.impl(r['api'], r['method'], u0, r['dx'], r['lam'], r['z'], samples=tuple(r.get('samples', (2, 2, 2, 2))))
     e = np.sum(np.abs(ref) ** 2)
     n = r['n']
     cu, cv = (n[0] // 2, n[1] // 2) if isinstance(n, (tuple, list)) else (n // 2, n // 2)
